@@ -1687,7 +1687,7 @@ def _generate_structure_definition(type_ir, ir, config: Config):
                 )
             )
         text_output_attr = ir_util.get_attribute(field.attribute, "text_output")
-        if not text_output_attr or text_output_attr.string_constant == "Emit":
+        if not text_output_attr or text_output_attr.string_constant.text == "Emit":
             if ir_util.field_is_read_only(field):
                 write_field_template = _TEMPLATES.write_read_only_field_to_text_stream
             else:
